@@ -550,6 +550,53 @@ def stage_call_isolation(ctx: Ctx):
                 FST.set_options(docstr=True, pars='auto', trivia=True, pep8space=True, norm=False)
 
 
+def stage_option_values_untouched(ctx: Ctx):
+    """an option VALUE passed to a call (or set for a block / globally) is the caller's object: a call that uses it gives the result a call with a
+    fresh equal value gives, however many calls used the object before, and leaves the object as it was (the `op` option takes lists / AST / FST)"""
+    import fst
+    FST = fst.FST
+    mk = {'list': lambda: ['>'], 'list2': lambda: ['>', ''], 'list-notin': lambda: ['not in'], 'list-sp': lambda: [' >= '], 'str': lambda: '>',
+          'ast': lambda: ast.Gt(), 'type': lambda: ast.Gt, 'fst': lambda: FST('>', 'cmpop')}
+
+    def show(v):
+        return v.src if isinstance(v, FST) else ast.dump(v) if isinstance(v, ast.AST) else repr(v)
+    edits = [('a < b', lambda f, kw: f.put_slice('x', 1, 1, **kw)), ('a < b < c', lambda f, kw: f.put_slice('x < y', 1, 1, **kw)),
+             ('f(a < b, c)', lambda f, kw: f.args[0].put_slice('x', 2, 2, **kw)), ('a < b', lambda f, kw: f.put_slice('x', 0, 0, **kw)),
+             ('a is b', lambda f, kw: f.put_slice('(x,\n y)', 1, 1, **kw))]
+    for kind, make in mk.items():
+        for side in ('left', 'right'):
+            for way in ('call', 'block', 'global'):
+                for src, edit in edits:
+                    def once(v):
+                        f = FST(src, 'expr')
+                        try:
+                            if way == 'call':
+                                edit(f, dict(op=v, op_side=side))
+                            elif way == 'block':
+                                with FST.options(op=v, op_side=side):
+                                    edit(f, {})
+                            else:
+                                old = FST.set_options(op=v, op_side=side)
+                                try:
+                                    edit(f, {})
+                                finally:
+                                    FST.set_options(**old)
+                            return f.src
+                        except Exception as e:
+                            return f'!{type(e).__name__}'
+                    want = once(make())
+                    shared = make()
+                    before = show(shared)
+                    for n in range(3):
+                        got = once(shared)
+                        ctx.tick(('optval', kind, side, way, src, edits.index((src, edit)), n), 'isolation:option-value')
+                        if got != want or show(shared) != before:
+                            ctx.violation(f'option-value|op|{"value changed" if show(shared) != before else "result differs"}',
+                                          'an edit given an option value used before does not give the result of the same edit with a fresh equal value, or changed the value: the call leaked into the caller\'s option',
+                                          {'src': src, 'op': before, 'op_after': show(shared), 'op_kind': kind, 'op_side': side, 'passed_by': way, 'use': n + 1, 'got': got, 'fresh_value_gives': want})
+                            break
+
+
 def run(ctx: Ctx):
     ctx.rule = ('(1) random option traces over 1-3 real threads in generated lock-step interleavings (set_options / options() enter / exit normal or with '
                 'exception / get_option with per-call dict), every option name incl. unknown and call-only names, values from a 43-value universe; model vs '
@@ -565,6 +612,7 @@ def run(ctx: Ctx):
     run_guarded(ctx, stage_block_oracle)
     run_guarded(ctx, stage_domain_oracle)
     run_guarded(ctx, stage_call_isolation)
+    run_guarded(ctx, stage_option_values_untouched)
     progs = [p for p in corpus(ctx.rng, gen=ctx.scale(10, 40)) if len(p) < 1500]
     run_guarded(ctx, stage_registry_commute_corr)
     run_guarded(ctx, stage_concurrent, progs)
